@@ -244,6 +244,21 @@ func validOpTree(t *rapid.T, l string) *ref.V {
 	if gen.OneIn(t, 3, l+"extra") {
 		members = append(members, [2]any{rapid.SampledFrom([]string{"comment", "x", "Op", "values", "from_", ""}).Draw(t, l+"en"), c.Value(1).Draw(t, l+"ev")})
 	}
+	if gen.OneIn(t, 5, l+"foreign") {
+		// a member another operation kind defines, on a kind that does not: to this kind it is just an extra member
+		has := map[string]bool{}
+		for _, m := range members {
+			has[m[0].(string)] = true
+		}
+		for _, name := range []string{"from", "value"} {
+			if !has[name] && rapid.Bool().Draw(t, l+"fm"+name) {
+				if name == "value" && kind == "test" {
+					continue // a test without value is a case of its own above
+				}
+				members = append(members, [2]any{name, c.Value(1).Draw(t, l+"fv"+name)})
+			}
+		}
+	}
 	if gen.OneIn(t, 2, l+"shuffle") {
 		idx := rapid.Permutation([]int{0, 1, 2, 3, 4}[:len(members)]).Draw(t, l+"perm")
 		sh := make([][2]any, len(members))
